@@ -41,7 +41,7 @@ def directed(rng: random.Random) -> dict:
                        "if_defines", "if_defines_label", "macro_if_defines", "for_shadow", "for_after", "macro_defined_in_if",
                        "macro_defined_in_empty_loop", "loop_state_per_iteration", "scope_in_loop", "loop_forward_label_shadow",
                        "taken_branch_fails", "table_in_loop", "loop_var_width_boundary", "block_argument_in_loop", "statement_after_if_named_like_a_keyword",
-                       "condition_undefined_then_defined", "empty_first_block", "condition_over_parameter_known_later", "constant_argument_beside_a_forward_label"])
+                       "condition_undefined_then_defined", "empty_first_block", "condition_over_parameter_known_later", "constant_argument_beside_a_forward_label", "loop_label_beside_a_suffixed_name", "macro_redefined_between_iterations"])
     tables: dict = {}
     db = lambda *es: {"k": "data", "d": "db", "es": [e if isinstance(e, list) else E(e) for e in es]}  # noqa: E731
     if kind == "condition_undefined_then_defined":
@@ -76,6 +76,21 @@ def directed(rng: random.Random) -> dict:
         body += [mdef, {"k": "call", "n": "entq", "as": [E(1), E("irqq"), E(2)]}, {"k": "call", "n": "entq", "as": [E(0), E("irqq"), E(3)]}, {"k": "label", "n": "irqq"}, db(0x40)]
         later = 0x8000 + 3 + 2 + 1 + 3
         exp = b"\x4c" + later.to_bytes(2, "little") + b"\x40\x41" + b"\xea" + b"\x40\x41\x42" + b"\x40"
+        return {"prog": body, "files": {}, "tables": tables, "rom": "low", "family": "directed:" + kind, "expect_bytes": exp.hex()}
+    if kind == "loop_label_beside_a_suffixed_name":
+        # the surrounding code has its own label `tileq_1`; the loop body has `tileq`: two different names, whatever the loop variable is
+        body[0] = {"k": "org", "e": E(0x8000)}
+        body += [{"k": "label", "n": "tileq_1"}, db(1), {"k": "label", "n": "tileq_k"}, {"k": "for", "v": "kq", "a": E(0), "b": E(3), "body": [{"k": "label", "n": "tileq"}, db(2)]},
+                 {"k": "data", "d": "dw", "es": [E("tileq_1"), E("tileq_k")]}]
+        exp = bytes([1, 2, 2, 2, 0x00, 0x80, 0x01, 0x80])
+        return {"prog": body, "files": {}, "tables": tables, "rom": "low", "family": "directed:" + kind, "expect_bytes": exp.hex()}
+    if kind == "macro_redefined_between_iterations":
+        # one application statement in a loop body; the macro it names is defined again between two iterations: each iteration expands the
+        # definition in force then (the unrolled text says the same)
+        put_b = {"k": "macro", "n": "putq", "ps": ["pv"], "b": [db(E("pv"))]}
+        put_w = {"k": "macro", "n": "putq", "ps": ["pv"], "b": [{"k": "data", "d": "dw", "es": [E("pv")]}]}
+        body += [{"k": "for", "v": "kq", "a": E(0), "b": E(3), "body": [{"k": "if", "c": E("kq", "&", 1), "t": [put_w], "e": [put_b]}, {"k": "call", "n": "putq", "as": [E(0x11)]}]}, db(0xEE)]
+        exp = bytes([0x11, 0x11, 0x00, 0x11, 0xEE])
         return {"prog": body, "files": {}, "tables": tables, "rom": "low", "family": "directed:" + kind, "expect_bytes": exp.hex()}
     if kind == "empty_first_block":
         # `.if RELEASE { } else { debug code }` is how "if not" is written: an empty (or comment-only) first block is still the one that is taken
